@@ -66,6 +66,9 @@ def run(run, binfo):
             if c['exc'] is not None:
                 c['exc_args'] = ('a1', 2)
                 c['exc_kwargs'] = {'kw': 'v'}
+        elif rng.random() < 0.25:
+            # the same rules (text and list forms) read from a policy file by the enforcement call itself
+            c['from_file'] = True
         cases.append(c)
     # literals that parse but have no decimal string form (CPython's 4300-digit limit applies to str(), not to hex/octal
     # input): not evaluable, hence deny
@@ -82,7 +85,13 @@ def run(run, binfo):
         for dr in (False, True):
             for es in (False, True):
                 for creds in ({'roles': ['admin'], 'project_id': 'p'}, {'roles': [], 'system_scope': 'all'},
-                              {'roles': ['admin'], 'domain_id': 'd'}):
+                              {'roles': ['admin'], 'domain_id': 'd'},
+                              # scope attributes of every JSON type: any truthy `system` means system scope
+                              {'roles': ['admin'], 'system': True}, {'roles': ['admin'], 'system': 1},
+                              {'roles': [], 'system': 'x'}, {'roles': ['admin'], 'system': ['all']},
+                              {'roles': ['admin'], 'system': {'all': True}}, {'roles': ['admin'], 'system_scope': 2.5},
+                              {'roles': ['admin'], 'system_scope': ['all']}, {'roles': ['admin'], 'domain_id': 7},
+                              {'roles': ['admin'], 'project_id': ['p'], 'domain_id': {}}):
                     for types in (['system'], ['project'], ['domain', 'system']):
                         cases.append(base_case(rules={'pol': cs}, rule=('name', 'pol'), creds=creds,
                                                target={'wanted': 'admin', 'project_id': 'p', 'k': 'admin'},
